@@ -51,6 +51,14 @@ func init() {
 		badPairs[[2]string{"|", b}] = true
 	}
 	badPairs[[2]string{"/", "*"}] = true
+	// `/*=` opens a comment too
+	badPairs[[2]string{"/", "*="}] = true
+	// `1-->` is a dimension of unit `--`, `#-->` a hash, `@-->` an at-keyword, each followed by `>`
+	for _, a := range []string{"number", "#", "@"} {
+		badPairs[[2]string{a, "-->"}] = true
+	}
+	// `<`, `!` and `--` written back to back are the `<!--` token
+	badPairs[[2]string{"<", "!"}] = true
 }
 
 func Serialize(l []Token) string {
